@@ -320,6 +320,19 @@ Definition reopen (s : state) : state :=
   {| st_mem := st_mem s; st_memid := st_memid s; st_imms := st_imms s;
      st_l0 := isort fid_leb (st_l0 s); st_lvls := resort; st_maxfid := st_maxfid s |}.
 
+(** LSM.MaxVersion as Open uses it to seed the transaction oracle: the
+    memtables rebuilt from the WAL and the tables of every level (main tables
+    and ingest buffers). *)
+Definition recs_maxver (l : list rec) : N := fold_left (fun m r => N.max m (r_ver r)) l 0.
+Definition max_version (s : state) : N :=
+  fold_left N.max
+    (recs_maxver (st_mem s) :: map (fun m => recs_maxver (snd m)) (st_imms s)
+     ++ map t_maxver (st_l0 s)
+     ++ concat (map (fun lv => map t_maxver (lv_main lv) ++ map t_maxver (concat (lv_shards lv))) (st_lvls s))) 0.
+(** oracle.initCommitState: the next commit timestamp after Open. *)
+Definition next_ts_after_open (s : state) : N :=
+  let m := max_version s in if m =? 0 then 1 else (m + 1) mod 18446744073709551616.
+
 Definition apply (s : state) (o : op) : state :=
   match o with
   | OPut r => put s r
